@@ -100,7 +100,9 @@ func (rn *runner) familyFloors() {
 		"gate-seq:handler-panics": 12, "gate-seq:expired-deadline": 12,
 		"ws-loop:request": 60, "ws-loop:notification": 60, "ws-loop:batch": 60, "ws-loop:syntax-error": 60, "ws-loop:mode-1": 80,
 		"ws-loop:mode-2": 80, "ws-loop:trailer>=32K": 50,
-		"tx-rules:invoke": 40, "tx-rules:declare": 40, "tx-rules:deployAccount": 40, "tx-rules:unknown": 40, "tx-rules:accepted": 20, "tx-rules:refused": 150}
+		"tx-rules:invoke": 40, "tx-rules:declare": 40, "tx-rules:deployAccount": 40, "tx-rules:unknown": 40, "tx-rules:accepted": 20, "tx-rules:refused": 150,
+		"nested:invalid-at-depth-2": 50, "nested:invalid-at-depth-3": 45, "nested:ok": 35, "nested:refused": 100,
+		"gate-race:release-then-cancel": 1000, "gate-race:cancel-then-release": 1000, "gate-race:concurrently": 1000}
 	counts := rn.res.Distribution
 	for k, min := range floors {
 		if counts[k] < min {
@@ -760,6 +762,9 @@ func main() {
 	rn.wsLoopTie(r.Fork(6060))
 	// 4f. the conditional parameter rules of the broadcasted transaction through the real rpcv10 validator (round 6)
 	rn.txRulesTie(r.Fork(7070))
+	// 4g. validateParam below the first level of nested containers; Gate.Acquire when Release and cancel race (follow-up)
+	rn.nestedValidation()
+	rn.gateRace(r.Fork(8080))
 	// 5. request deadlines while batch entries queue for a pool slot
 	rn.deadlines(r.Fork(777))
 	// 6. handlers that fail, over the transports
